@@ -185,6 +185,9 @@ def run(ctx):
             t = imm[0][0].ast
             conj = sorted(norm(v) for v in (t.values if isinstance(t, ast.BoolOp) and isinstance(t.op, ast.And) else [t]))
             ctx.check("C11.R3", "an unqualified reference is qualified with the enclosing namespace, unconditionally on anything else", conj == sorted([f"'.' not in {R.schema}", R.namespace]) and imm[0][1] == "true", ps.where(qual[0]), f"_parse_schema: qualify when {norm(t)}", "a name without dots inside a namespace denotes <namespace>.<name>; any further condition (e.g. 'not already known') lets it bind to a different type")
+        dom = true_facts(cfg, qn)
+        tbl_dep = sorted(x for x in dom if names_in_text(x) & {R.named, R.names})
+        ctx.check("C11.R3", "whether a reference is qualified does not depend on what is already defined", not tbl_dep, ps.where(qual[0]), f"_parse_schema: qualification under {tbl_dep}", "a simple name inside a namespace always denotes <namespace>.<name>: looking the bare name up first binds it to a type of the null namespace (or accepts a reference to an undefined <namespace>.<name>)")
         unk = [n for n in walk_local(ps.node) if isinstance(n, ast.Raise) and n.exc is not None and norm(n.exc) == f"UnknownType({R.schema})" and f"{R.schema} not in {R.named}" in true_facts(cfg, cfg.node_of(n))]
         ok = len(unk) == 1 and cfg.node_of(unk[0]) in cfg.reachable_from(qn)
         ctx.check("C11.R3", "after qualification an undefined name raises UnknownType", ok, ps.where(unk[0]) if unk else ps.where(), "_parse_schema: undefined reference check", "references to undefined names must be rejected, after the name was qualified")
